@@ -1,6 +1,6 @@
 (* EXTRACT-Z: c07 run_c07 *)
 (* Executable entry point of the C07/C19 matrix-file correspondence: wire case -> wire result. *)
-From OM Require Import Base.Lists Base.Wire Maths.BinCodec Maths.AsciiCodec Maths.IOFront.
+From OM Require Import Base.Lists Base.Wire Maths.BinCodec Maths.AsciiCodec Maths.IOFront Maths.TexCodec Maths.CscCodec.
 Local Open Scope Z_scope.
 
 (* the OCaml driver reads 63-bit integers: a 64-bit word travels as two unsigned 32-bit halves (lo, hi) *)
@@ -55,6 +55,15 @@ Definition outTxt (f : sepk * list (list tok)) : wire :=
   [0; match fst f with SepTab => 9 | SepSpace => 32 end; zn (length (snd f))] ++
   flat_map (fun l => zn (length l) :: flat_map outTok l) (snd f).
 
+(* tex: stream = nlines, per line ntok, per token (int flag, int, dbl flag, lo, hi, magic) *)
+Definition getXtok : dec xtok :=
+  do i <- getOpt; do d <- getOptW; do m <- getBool; ret {| x_int := i; x_dbl := d; x_magic := m |}.
+Definition getXstream : dec xstream := do n <- getN; getMany n (do k <- getN; getMany k getXtok).
+Definition outXw (t : xw) : wire :=
+  match t with XMagic => [2; 0; 0] | XWord => [3; 0; 0] | XInt n => [0; n; 0] | XVal w => 1 :: w_out w end.
+Definition outTex (f : list (list xw)) : wire :=
+  [0; zn (length f)] ++ flat_map (fun l => zn (length l) :: flat_map outXw l) f.
+
 Definition run_c07 (w : wire) : wire :=
   match w with
   | 1 :: w' => run_dec getObj w' (fun o => let bs := encode o in 0 :: zn (length bs) :: bs)
@@ -63,5 +72,12 @@ Definition run_c07 (w : wire) : wire :=
                  (fun '(order, sfx, k, fl) => outRes (load order sfx k fl))
   | 4 :: w' => run_dec (do k <- getKind; do nb <- getN; do bs <- getZs nb; ret (k, bs)) w'
                  (fun '(k, bs) => outRes (decode_as k bs))
+  | 5 :: w' => run_dec getXstream w' (fun s => outRes (tex_decode s))
+  | 6 :: w' => run_dec getObj w' (fun o => match o with OFull nl nc vs => outTex (tex_encode nl nc vs) | _ => [-1] end)
+  | 7 :: w' => run_dec getObj w' (fun o => match o with
+        | OSparse nl nc es => let c := write_csc nl nc es in
+            [0; c_nl c; c_nc c; zn (length (c_ir c))] ++ c_ir c ++ [zn (length (c_jc c))] ++ c_jc c ++
+            [zn (length (c_data c))] ++ flat_map w_out (c_data c) ++ outRes (read_csc c)
+        | _ => [-1] end)
   | _ => [-1]
   end.
